@@ -203,9 +203,26 @@ def part_deep(ctx):
     g.scalars += [datetime.date(2020, 1, 1), datetime.date(2021, 6, 15), datetime.datetime(2020, 1, 1, 2, 3, tzinfo=datetime.timezone.utc), datetime.datetime(2021, 5, 6, tzinfo=datetime.timezone.utc),
                   datetime.time(1, 2, 3), datetime.time(4, 5, 6), datetime.timedelta(1), datetime.timedelta(seconds=90), decimal.Decimal('1.5'), decimal.Decimal('7.25')]
     n = 2500 if ctx.thorough() else 350
+    gflat = Gen(ctx.rng, scalars=[0, 1, 2, 3, 4, 5, 6, 7, 8, 9, 'a', 'b'], kinds=('list',), max_depth=1, max_width=7, p_leaf=0)
     for i in range(n):
         t1 = g.container()
         t2 = copy.deepcopy(t1) if ctx.rng.random() < 0.12 else g.edits(t1, ctx.rng.randint(1, 3))
+        if i % 5 == 2:
+            # short flat sequences with an item inserted at one end and / or removed at the other (the difflib pass wins and its opcodes are kept for Delta)
+            base = ctx.rng.sample(range(1, 30), ctx.rng.randint(3, 7))
+            new = list(base)
+            for _e in range(ctx.rng.randint(1, 3)):
+                c = ctx.rng.random()
+                if c < 0.4 and new:
+                    del new[ctx.rng.choice([0, -1])]
+                elif c < 0.8:
+                    new.insert(ctx.rng.choice([0, len(new)]), ctx.rng.randint(40, 60))
+                elif new:
+                    new[ctx.rng.randrange(len(new))] = ctx.rng.randint(70, 90)
+            mk_ = ctx.rng.choice([list, tuple])
+            t1, t2 = mk_(base), mk_(new)
+            if ctx.rng.random() < 0.3:
+                t1, t2 = {'l': t1, 'z': 1}, {'l': t2, 'z': 1}
         for cfg in ({}, {'ignore_order': True}, {'view': 'tree'}, {'ignore_order': True, 'cutoff_distance_for_pairs': 0.6, 'view': 'tree'}):
             case = {'kind': 'deep', 't1': repr(t1), 't2': repr(t2), 'cfg': cfg}
             ctx.evaluations += 1
